@@ -108,8 +108,8 @@ def install_traces():
 
     obf = sz.SevenZipReader._build_file_list
 
-    def traced_bfl(self, num_files, empty_streams, names, attributes):
-        r = obf(self, num_files, empty_streams, names, attributes)
+    def traced_bfl(self, num_files, empty_streams, names, attributes, *more, **kw):
+        r = obf(self, num_files, empty_streams, names, attributes, *more, **kw)
         if REC["on"]:
             fo = [None] * len(self._files)
             for k, idxs in self._folder_to_files.items():
